@@ -16,7 +16,7 @@ if ! git -C "$wt" apply "$patch" 2>/tmp/mutest.apply.err.$$; then
 fi
 rm -f /tmp/mutest.apply.err.$$
 cd /verif
-./bin/vcheck -repo "$wt" -property "$prop" "$@" 2>&1 | grep -v "^instrumented" | tail -14
+${VCHECK:-./bin/vcheck} -repo "$wt" -property "$prop" "$@" 2>&1 | grep -v "^instrumented" | tail -14
 rc=${PIPESTATUS[0]}
 echo "mutest: exit=$rc"
 exit $rc
